@@ -219,7 +219,13 @@ def names_for(draw, n, max_len=40, charset=NAME_CHARS, long_names=True):
     seen = set()
     for i in range(n):
         hi = max_len if mode == "rand" else 200
-        nm = draw(st.text(alphabet=charset, min_size=1, max_size=hi))
+        nm = draw(st.text(alphabet=charset, min_size=1, max_size=min(hi, 24)))
+        if mode == "long":
+            # exact lengths, concentrated on the limits of the name columns (st.text alone almost never gets long)
+            L = draw(st.one_of(st.integers(1, 200), st.sampled_from([59, 60, 61, 62, 127, 128, 189, 190, 191, 192, 195, 199, 200])))
+            nm = (nm + draw(st.sampled_from(charset)) * L)[:L]
+        elif hi > 24 and draw(st.integers(0, 3)) == 0:
+            nm = (nm * hi)[:draw(st.integers(1, hi))]
         if nm[:255] in seen:
             nm = (nm + "_%d" % i)
             if nm[:255] in seen:
